@@ -48,8 +48,8 @@ CLAIMED = {
   design_ref="DESIGN.md §6 C09", note="The public writer on whole documents is intractable; clause (e) Full-equivalence is not decided.",
   technique=T + "writer units via hooks vs reference byte layout"),
  "C10": dict(
-  text='Public write / write_raw of an element with 0..2 masters open in every known/unknown combination (symbolic payload and buffered bytes): destination only extended; no known-size master open => buffer empty and element handed over; a known-size master open at ANY depth => destination untouched, buffer extended; private_flush delivers exactly the buffer under short writes (symbolic and concrete lengths); end_tag layout (C09a).',
-  design_ref="DESIGN.md §6 C10", note='Per-call contract with Inv_w asserted as post-condition; sequences by induction (T5). flush()/into_inner() as a whole are intractable (out of memory) and NOT covered.',
+  text='Public write / write_raw of an element with 0..2 masters open in every known/unknown combination (symbolic payload and buffered bytes): destination only extended; no known-size master open => buffer empty and element handed over; a known-size master open at ANY depth => destination untouched, buffer extended; private_flush delivers exactly the buffer under short writes (symbolic and concrete lengths); end_tag layout (C09a); from the states the writer reaches after an unknown-size Start (header(s) of 9/18 arbitrary bytes still pending, only unknown-size masters open): public write(End) of the innermost unknown-size master and public write of an element hand over every pending byte in order and leave the buffer empty; an unknown-size Start keeps destination ++ buffer == previous content | header.',
+  design_ref="DESIGN.md §6 C10, §12b", note='Per-call contract with Inv_w (extension round: weakened to the reachable form "no known-size master open => the buffer holds at most the headers of unknown-size masters started since the last hand-over") asserted as post-condition; sequences by induction (T5). flush()/into_inner() as a whole are intractable (out of memory) and NOT covered.',
   technique=T + "flush contract of one public write from seeded writer states"),
  "C11": dict(
   text='(a) validate_tag_path == declared-path pattern semantics for ONE fully symbolic path of 0..3 parts (Id or Global(min,max) with any bounds, in any position) against every chain of 0..3 known-size masters; (b) the same function over Tree with unknown-size masters in every pattern (ids enumerated); (c) reader call site at depth 0 with symbolic header: HierarchyError carrying the offending id iff the remaining chain does not match; (d) writer call site: misplaced known-size start / leaf and misplaced unknown-size start (both calls) rejected with UnexpectedTag and no trace, global within range accepted; is_ended_by table.',
